@@ -20,7 +20,7 @@ MIN_NONTRIVIAL = {'quick': 100, 'thorough': 3000}
 
 LIMIT_S = 20
 N_NET = {'quick': 260, 'thorough': 9000}
-BATCH = 60
+BATCH = 150
 
 
 def assumptions(run):
